@@ -669,6 +669,7 @@ fn check_c17(seed: u64, tier: Tier, replay: Option<String>) -> i32 {
                     || matches!(&c.faults[0], c17::SFault::Lost { file, .. } if file != "config.json" && !file.starts_with("dummy_"))
                     || matches!(&c.faults[0], c17::SFault::BitFlip { offset, .. } if *offset > 4)
                     || matches!(&c.faults[0], c17::SFault::Extend { n: 8, .. })
+                    || matches!(&c.faults[0], c17::SFault::OtherConfig { .. })
                     || rng.chance(1, 8)
             })
             .collect()
